@@ -30,5 +30,5 @@ def run(ctx):
         "file presentation order is varied through the memfs listing order and an explicit file list (parser.ParseFSEntries); the OS directory order (sorted by os.ReadDir) is not varied",
         "map iteration order is varied by Go's per-range randomisation and per-process hash seeds, not enumerated",
     ]
-    common.standard(ctx, "GopModel.Props.C08", "c08", 240, 4000, RULE,
+    common.standard(ctx, "GopModel.Props.C08", "c08", 160, 2000, RULE,
                     extract=("mapranges",), driver="drv_compb")
